@@ -72,7 +72,8 @@ def gen_export_import(rng, tier):
                 for endian in (-1, 0, 1):
                     aligns = range(8) if (size == 8 and nails == 0) else [rng.randrange(8)]
                     for align in aligns:
-                        xs = [rng.choice(small), rng.choice(vals)]
+                        nv = 2 if tier == "quick" else 6
+                        xs = [rng.choice(small) for _ in range(nv)] + [rng.choice(vals) for _ in range(nv)]
                         if size == 8 and nails == 0: xs += [rng.choice(vals), 0, (1 << 64) - 1, 1 << 64]
                         for x in xs:
                             if rng.random() < 0.3: x = -x          # sign is ignored by export
@@ -100,7 +101,7 @@ def raw_samples(rng, tier):
     xs = [0, 1, -1, 0x7f, 0x80, -0x80, 0xff, 0x100, -0x100, (1 << 56) - 1, 1 << 56, (1 << 63), -(1 << 63), (1 << 64) - 1,
           1 << 64, -(1 << 64), (1 << 64) + 1, (1 << 120) + 5, -((1 << 128) - 1), 1 << 128]
     for _ in range(8 if tier == "quick" else 40): xs.append(rand_int(rng, 5))
-    xs.append(rand_int(rng, 50) | (1 << 64 * 49)); xs.append(-(rand_int(rng, 30, False) | (1 << 64 * 20)))
+    xs.append(abs(rand_int(rng, 50, False)) | (1 << 64 * 49)); xs.append(-(abs(rand_int(rng, 30, False)) | (1 << 64 * 20)))
     return xs
 
 def gen_raw(rng, tier):
@@ -113,7 +114,7 @@ def gen_raw(rng, tier):
         yield "mpz_inp_raw %s" % sbytes(s + bytes(rng.getrandbits(8) for _ in range(rng.randrange(1, 9))))   # trailing data stays unread
         # EVERY truncation point, EVERY write-failure position (long outputs: sampled past 80)
         L = len(s)
-        ks = range(L + 2) if L <= 80 else list(range(12)) + sorted(rng.sample(range(12, L), 30)) + [L - 1, L, L + 1]
+        ks = range(L + 2) if L <= 80 else list(range(12)) + sorted(rng.sample(range(12, L), min(30, L - 12))) + [L - 1, L, L + 1]
         for k in ks:
             yield "mpz_inp_raw_trunc %s %x" % (sbytes(s), k)
             yield "mpz_out_raw_fail %s %s" % (hx(x), hx(k))
@@ -161,9 +162,9 @@ def gen_text_out(rng, tier):
             for k in list(range(min(L, 60) + 2)) + [-1]:
                 yield "mpq_out_str_fail %s %s %s %s" % (hx(base), hx(n), hx(d), hx(k))
     # a long operand: failure positions sampled
-    x = rand_int(rng, 50) | (1 << 3000)
+    x = rng.choice([1, -1]) * (abs(rand_int(rng, 50, False)) | (1 << 3000))
     L = len(text(10, x))
-    for k in list(range(5)) + sorted(rng.sample(range(5, L), 40)) + [L - 1, L, -1]:
+    for k in list(range(5)) + sorted(rng.sample(range(5, L), min(40, L - 5))) + [L - 1, L, -1]:
         yield "mpz_out_str_fail a %s %s" % (hx(x), hx(k))
 
 def mpf_operands(rng, tier):
@@ -242,7 +243,7 @@ def gen_fprintf(rng, tier):
                     for x in rng.sample(xs, 2 if tier == "quick" else len(xs)):
                         body = text(base, x)
                         L = len(pre) + max(width, len(body)) + len(post)
-                        ks = range(L + 1) if L <= 60 else list(range(8)) + sorted(rng.sample(range(8, L), 25)) + [255, 256, 257, L - 1, L]
+                        ks = range(L + 1) if L <= 60 else list(range(8)) + sorted(rng.sample(range(8, L), min(25, L - 8))) + [255, 256, 257, L - 1, L]
                         for k in list(ks) + [-1]:
                             yield "gmp_fprintf_fail %s %x %x %s %s %s" % (sbytes(pre), width, base, hx(x), sbytes(post), hx(k))
 
